@@ -128,6 +128,8 @@ def shapes(fmt):
     yield "shape:material_properties", pygaps.PointIsotherm(pressure=[0.1, 0.2, 0.4], loading=[1.0, 1.5, 2.0], **mmeta)
     # metadata keys that start with an underscore (document-database style _id / _rev) are metadata like any other
     yield "shape:metadata_keys_with_leading_underscore", pygaps.PointIsotherm(pressure=[0.1, 0.2, 0.4], loading=[1.0, 1.5, 2.0], _id='5f1e9c0b7a', _rev=3.5, **meta)
+    # a number that is not a number among the metadata (a mass that was not recorded)
+    yield "shape:metadata_nan", pygaps.PointIsotherm(pressure=[0.1, 0.2, 0.4], loading=[1.0, 1.5, 2.0], dry_weight=float('nan'), **meta)
     # whole numbers with a sign among the metadata (the Excel reader returns every number as a float: listed finding)
     if fmt != 'excel':
         yield "shape:metadata_negative_integer", pygaps.PointIsotherm(pressure=[0.1, 0.2, 0.4], loading=[1.0, 1.5, 2.0], cycle=-5, offset=-2.5, **meta)
@@ -239,13 +241,19 @@ def compare(a, b, fmt):
     for k in sorted(set(da) | set(db)):
         va, vb = da.get(k, '<absent>'), db.get(k, '<absent>')
         if fmt != 'json' and isinstance(va, float) and isinstance(vb, (int, float)) and not isinstance(vb, bool):
-            same = abs(va - vb) <= 1e-8 * max(1, abs(va))
+            same = abs(va - vb) <= 1e-8 * max(1, abs(va)) or (va != va and vb != vb)
         elif fmt != 'json' and isinstance(va, int) and not isinstance(va, bool) and isinstance(vb, float):
             same = va == vb
         else:
-            same = va == vb and (fmt != 'json' or type(va) is type(vb))
+            same = (va == vb or (isinstance(va, float) and isinstance(vb, float) and va != va and vb != vb)) and (fmt != 'json' or type(va) is type(vb))
         if not same:
             diffs.append(f"{k}: {va!r} -> {vb!r}")
+    # equality is agreement of the identifiers
+    try:
+        if (a.iso_id == b.iso_id) != (a == b):
+            diffs.append(f"identifiers agree: {a.iso_id == b.iso_id}, but a == b is {a == b}")
+    except Exception as exc:
+        diffs.append(f"equality: {type(exc).__name__}: {exc}"[:100])
     if isinstance(a, pygaps.PointIsotherm):
         ca, cb = list(a.data_raw.columns), list(b.data_raw.columns)
         if sorted(ca) != sorted(cb):
